@@ -12,11 +12,13 @@
    * a graph is Base.Graph.digraph; [edges g] is kept in INSERTION order (add = append, remove =
      filter), so that [parents g v] is networkx's predecessor order and [edges_nx g] (grouped by source
      node in node order) is the order of [model.edges()].
-   * python set iteration: [potential_new_edges] is a python set, so the order in which additions are
-     generated is not a function of the inputs the model sees.  The model enumerates them in
-     itertools.permutations order and reports [r_ambig] = "at some iteration two or more additions tied
-     for the maximal delta"; only then can pgmpy's choice differ from the model's.  (max() keeps the
-     first maximal element of additions ++ removals ++ flips; removals and flips come in edges_nx order.)
+   * order of candidates: additions in itertools.permutations(self.variables, 2) order (a list since
+     /repo d77f396; before that a python set, whose hash order broke ties), then removals, then flips,
+     both in model.edges() order = [edges_nx].  max() keeps the first maximal element, so the run is a
+     function of the inputs; [r_tie] only records that some iteration had two or more maximal
+     candidates (evidence that tie-breaking was exercised; nothing depends on it).
+     The one python set left is set(fixed_edges): its iteration order is the order of [fixed c], the
+     order in which new fixed edges are appended to the start graph.
    * [nx.has_path] = Base.Graph.has_path (proved = dpath).  The flip test
         not any(len(path) > 2 for path in nx.all_simple_paths(model, X, Y))
      is modelled as "no path X ->* Y in model minus the edge (X,Y)"; Props.C11_flip_test_faithful proves
@@ -141,25 +143,25 @@ Definition tabu_push (t : list op) (o : op) : list op :=
   let t' := t ++ [o] in
   match tabu_len c with None => t' | Some n => skipn (length t' - n) t' end.
 
-(* two or more additions attain the maximal delta [d] *)
-Definition ambig_at (g : digraph) (tabu : list op) (d : Qc) : bool :=
-  2 <=? length (filter (fun od => Qceqb (snd od) d) (adds g tabu)).
+(* two or more candidates attain the maximal delta [d] (informational) *)
+Definition tie_at (g : digraph) (tabu : list op) (d : Qc) : bool :=
+  2 <=? length (filter (fun od => Qceqb (snd od) d) (legal_ops g tabu)).
 
-Record hc_res := { r_g : digraph; r_broke : bool; r_ambig : bool; r_trace : list (op * Qc) }.
+Record hc_res := { r_g : digraph; r_broke : bool; r_tie : bool; r_trace : list (op * Qc) }.
 
 (* the for-loop of estimate; [r_broke] = left by `break` (no operation, or best delta < epsilon) *)
 Fixpoint hc_loop (fuel : nat) (g : digraph) (tabu : list op) : hc_res :=
   match fuel with
-  | 0 => {| r_g := g; r_broke := false; r_ambig := false; r_trace := [] |}
+  | 0 => {| r_g := g; r_broke := false; r_tie := false; r_trace := [] |}
   | S f =>
       match argmax_first (legal_ops g tabu) with
-      | None => {| r_g := g; r_broke := true; r_ambig := false; r_trace := [] |}
+      | None => {| r_g := g; r_broke := true; r_tie := false; r_trace := [] |}
       | Some (o, d) =>
-          if Qcltb d (eps c) then {| r_g := g; r_broke := true; r_ambig := false; r_trace := [] |}
+          if Qcltb d (eps c) then {| r_g := g; r_broke := true; r_tie := false; r_trace := [] |}
           else
             let r := hc_loop f (apply_op g o) (tabu_push tabu (tabu_entry o)) in
             {| r_g := r_g r; r_broke := r_broke r;
-               r_ambig := ambig_at g tabu d || r_ambig r; r_trace := (o, d) :: r_trace r |}
+               r_tie := tie_at g tabu d || r_tie r; r_trace := (o, d) :: r_trace r |}
       end
   end.
 
